@@ -92,6 +92,7 @@ type access struct {
 type mapState struct {
 	w     *access
 	reads map[int]access
+	ref   any
 }
 
 // MapRace is one detected pair of conflicting, unordered accesses to a Go map.
@@ -135,7 +136,9 @@ func MapAccess(m any, write bool, site string) {
 	}
 	ms := s.maps[key]
 	if ms == nil {
-		ms = &mapState{reads: map[int]access{}}
+		// ref keeps the map alive for the rest of the run: a collected map's address could be handed to a new map,
+		// whose accesses would then be compared with the old map's history (a false, GC-dependent race report)
+		ms = &mapState{reads: map[int]access{}, ref: m}
 		s.maps[key] = ms
 	}
 	report := func(a access, aw bool) {
